@@ -1,2 +1,4 @@
-/- C05 — object lifetime on the reference-graph model: theorems are in Props/C05World.lean. -/
+/- C05 — object lifetime on the reference-graph model: theorems are in Props/C05World.lean (requests, drops, views)
+   and Props/C05Reader.lean (everything a read document built is released with its dictionary). -/
 import DsdVerif.Props.C05World
+import DsdVerif.Props.C05Reader
